@@ -257,6 +257,8 @@ func runFoScenario(d *Driver, id string, sc foScenario, res *Result) (trace []st
 
 	checkedResults := map[int]bool{}
 	seenBuild := map[*callout]bool{}
+	seenCall := map[*callout]bool{}
+	lastBuildTTLs := map[int][]int64{}
 	storesBuild := map[int]bool{} // the goroutine's next write stores the result of its build
 	freshBuilt := map[int]bool{}  // a build for the key succeeded and its result was stored with a long ttl
 	failedBuilt := map[int]bool{} // a build for the key failed while the failure cache is on
@@ -271,6 +273,42 @@ func runFoScenario(d *Driver, id string, sc foScenario, res *Result) (trace []st
 			}
 		}
 		s.mu.Unlock()
+		s.mu.Lock()
+		var newCalls []*callout
+		for _, co := range s.parked {
+			if !seenCall[co] {
+				seenCall[co] = true
+				newCalls = append(newCalls, co)
+			}
+		}
+		s.mu.Unlock()
+		for _, co := range newCalls {
+			if co.tid < 0 || co.tid >= n {
+				return &foViolation{"C06", "monitor", "fo:context-values-lost", fmt.Sprintf("after %s: a %s call-out arrived under a context that lost the caller's values", step, co.kind), nil}
+			}
+			if k := kidOf(co.key); k != sc.Threads[co.tid].Key {
+				return &foViolation{"C09", "monitor", "fo:foreign-key", fmt.Sprintf("after %s: goroutine %d (Get for k%d) issues %s for key k%d: the key buffer the caller rewrote after Get returned leaked into the in-flight build", step, co.tid, sc.Threads[co.tid].Key, co.kind, k), []string{"C04", "C02"}}
+			}
+			if co.kind == "write" && !storesBuild[co.tid] {
+				// the temporary re-store of a stale value must carry UpdateTTL
+				ut := int64(sc.Cfg.UT)
+				if ut == 0 {
+					ut = int64(time.Minute)
+				}
+				if co.ttl != ut {
+					return &foViolation{"C06", "monitor", "fo:refresh-ttl", fmt.Sprintf("after %s: goroutine %d re-stores the stale value with ttl %d, UpdateTTL is %d", step, co.tid, co.ttl, ut), nil}
+				}
+			}
+			if co.kind == "write" && storesBuild[co.tid] && len(lastBuildTTLs[co.tid]) == 0 {
+				want := int64(0)
+				if sc.Threads[co.tid].HasCell {
+					want = sc.Threads[co.tid].Cell
+				}
+				if co.ttl != want {
+					return &foViolation{"C06", "monitor", "fo:store-ttl", fmt.Sprintf("after %s: goroutine %d stores the built value with ttl %d, the caller's context carries %d and the builder set none", step, co.tid, co.ttl, want), nil}
+				}
+			}
+		}
 		for _, co := range newBuilds {
 			k := kidOf(co.key)
 			if sc.Threads[co.tid].Skip || faulty {
@@ -325,7 +363,11 @@ func runFoScenario(d *Driver, id string, sc foScenario, res *Result) (trace []st
 		return nil
 	}
 
+	var firstCorr *foViolation // remembered; the run continues under the monitors alone
 	compare := func(step, reply string) *foViolation {
+		if firstCorr != nil {
+			return nil
+		}
 		if reply == "ambig" {
 			res.Ambiguous++
 			return &foViolation{"", "ambig", "", "", nil}
@@ -334,13 +376,20 @@ func runFoScenario(d *Driver, id string, sc foScenario, res *Result) (trace []st
 			if strings.HasPrefix(reply, "bad-errE") {
 				return &foViolation{"C05", "monitor", "fo:failure-ttl", fmt.Sprintf("after %s: cached failure expiry outside FailedUpdateTTL bounds: %s", step, reply), nil}
 			}
-			return &foViolation{"", "correspondence", "fo:disabled-step", fmt.Sprintf("%s is not a step of the model here (model: %s)", step, d.Ask("fo summary "+id)), nil}
+			firstCorr = &foViolation{"", "correspondence", "fo:disabled-step", fmt.Sprintf("%s is not a step of the model here (model: %s)", step, d.Ask("fo summary "+id)), nil}
+			return nil
 		}
 		impl := summary()
 		if m := normModel(reply); m != impl {
-			return &foViolation{"", "correspondence", "fo:position", fmt.Sprintf("after %s:\n impl : %s\n model: %s", step, impl, m), nil}
+			firstCorr = &foViolation{"", "correspondence", "fo:position", fmt.Sprintf("after %s:\n impl : %s\n model: %s", step, impl, m), nil}
 		}
 		return nil
+	}
+	ask := func(line string) string {
+		if firstCorr != nil {
+			return "skipped"
+		}
+		return d.Ask(line)
 	}
 
 	builder := func(tid int, key []byte) func(ctx context.Context) (int, error) {
@@ -506,6 +555,7 @@ func runFoScenario(d *Driver, id string, sc foScenario, res *Result) (trace []st
 				if dir.bOK {
 					okVals[k][dir.bVal] = true
 					storesBuild[t] = true
+					lastBuildTTLs[t] = dir.bTTLs
 					line = fmt.Sprintf("fo build %s %d %d %d ok %d ups=%s", id, t, t0, t1, dir.bVal, ups)
 				} else {
 					errToks[k][dir.bErr] = true
@@ -525,7 +575,7 @@ func runFoScenario(d *Driver, id string, sc foScenario, res *Result) (trace []st
 			if v := monitors(step); v != nil {
 				return trace, v
 			}
-			if v := compare(step, d.Ask(line+timeSuffix(line, t0, t1))); v != nil {
+			if v := compare(step, ask(line+timeSuffix(line, t0, t1))); v != nil {
 				if v.kind == "ambig" {
 					return trace, nil
 				}
@@ -546,7 +596,7 @@ func runFoScenario(d *Driver, id string, sc foScenario, res *Result) (trace []st
 		if v := monitors(step); v != nil {
 			return trace, v
 		}
-		if v := compare(step, d.Ask(fmt.Sprintf("%s %d %d", line, t0, t1))); v != nil {
+		if v := compare(step, ask(fmt.Sprintf("%s %d %d", line, t0, t1))); v != nil {
 			if v.kind == "ambig" {
 				return trace, nil
 			}
@@ -565,13 +615,19 @@ func runFoScenario(d *Driver, id string, sc foScenario, res *Result) (trace []st
 	}
 	s.mu.Unlock()
 	if len(pending) > 0 {
-		return trace, &foViolation{"C04", "monitor", "fo:stuck-waiter", fmt.Sprintf("no goroutine can make progress but Gets %v never returned (model: %s)", pending, d.Ask("fo summary "+id)), nil}
+		return trace, &foViolation{"C04", "monitor", "fo:stuck-waiter", fmt.Sprintf("no goroutine can make progress but Gets %v never returned", pending), nil}
 	}
 	s.mu.Lock()
 	lastLoneResult = s.results[0]
 	s.mu.Unlock()
 	if l := fe.KeyLocks(); l != 0 {
 		return trace, &foViolation{"C04", "monitor", "fo:lock-leak", fmt.Sprintf("all Gets and background builds finished but %d key lock(s) remain", l), []string{"C09"}}
+	}
+	if firstCorr != nil {
+		if fmt.Sprintf("%d", buildIdx) != fmt.Sprint(stats.Get(cache.MetricBuild, name)) {
+			return trace, &foViolation{"C18", "monitor", "fo:build-count", fmt.Sprintf("%d builder invocations but cache_build=%d", buildIdx, stats.Get(cache.MetricBuild, name)), nil}
+		}
+		return trace, firstCorr
 	}
 	implStats := fmt.Sprintf("build=%d failed=%d refreshed=%d", stats.Get(cache.MetricBuild, name), stats.Get(cache.MetricFailed, name), stats.Get(cache.MetricRefreshed, name))
 	ms := d.Ask("fo stats " + id)
@@ -810,7 +866,7 @@ func runFo(o Opts) *Result {
 			smp["callout_trace"] = strings.Join(trace, ",")
 			res.Samples = append(res.Samples, smp)
 		}
-		if v == nil && sc.Label == "table" {
+		if (v == nil || v.kind == "correspondence") && sc.Label == "table" {
 			wantV, wantE, wantB := expectTable(sc)
 			got := lastLoneResult
 			gotV, gotE := "", ""
@@ -834,7 +890,7 @@ func runFo(o Opts) *Result {
 					built = true
 				}
 			}
-			if got == nil || gotV != wantV || gotE != wantE || built != wantB {
+			if got != nil && (gotV != wantV || gotE != wantE || built != wantB) {
 				v = &foViolation{"C03", "monitor", "fo:decision-table", fmt.Sprintf("lone Get: documented table says value=%q error=%q builder-invoked=%v, got value=%q error=%q builder-invoked=%v", wantV, wantE, wantB, gotV, gotE, built), nil}
 			}
 		}
